@@ -131,6 +131,11 @@ def rewrite(text, rnd):
     return chunks, f'{indent_mode},{"crlf" if eol != chr(10) else "lf"},{form}{len(cuts)}'
 
 
+FAILING = ['xx = 1 + \\', 'aa = fn(1, \\\n  2, \\', 'function ff():\n    aa = 1', 'if xx:', 'while xx:\n    yy = 1 \\', 'xx = (1 +', "xx = 'abc", 'for xx in yy:\nendif',
+           'endfunction', 'else:', 'function ff():\n    if xx:\n        aa = 1 \\', 'function ff():\n    function gg():', 'lbl:\njumpif (xx lbl', 'break', 'xx = 1 +* 2',
+           'for xx in yy:\n    continue \\', 'function ff(aa, aa):\n    return aa +\nendfunction', "include 'abc\nyy = 2"]
+
+
 def all_chunkings(lines, maxcuts=6):
     n = len(lines)
     for k in range(0, min(maxcuts, n - 1) + 1):
@@ -182,6 +187,16 @@ def check_rewrites(name, text, nrew, rnd, acc, api, exhaustive_chunks=False):
             acc.count('determinism_checks')
             if json.dumps(again, sort_keys=True) != cj:
                 acc.violation('parser-keeps-state', f'{name}: parsing the canonical text again after a rewrite gives another model', case)
+            # ... and after a parse that FAILED (every error exit of the parser), in any input form
+            bad = rnd.choice(FAILING)
+            try:
+                parse_script(bad if rnd.random() < 0.5 else bad.split('\n'))
+                acc.count('failing_text_accepted')
+            except perr:
+                acc.count('failed_parses_before_reparse')
+            again = parse_script(text if rnd.random() < 0.5 else text.split('\n'))
+            if json.dumps(again, sort_keys=True) != cj:
+                acc.violation('parser-keeps-state-after-error', f'{name}: after a failed parse of {bad!r} the canonical text gives another model; first difference: {first_diff(canon, again)}', dict(case, failed_first=bad))
     if exhaustive_chunks:
         lines = text.split('\n')
         for chunks in all_chunkings(lines):
@@ -288,6 +303,15 @@ def replay(spec, acc):
         return
     canon = parse_script(case['text'])
     acc.case(json.dumps(case['rewrite']), True)
+    if case.get('failed_first'):
+        try:
+            parse_script(case['failed_first'])
+        except perr:
+            pass
+        again = parse_script(case['text'])
+        if again != canon:
+            acc.violation('parser-keeps-state-after-error', first_diff(canon, again), case)
+            return
     try:
         got = parse_script(case['rewrite'])
     except perr as exc:
